@@ -331,8 +331,12 @@ MUTATORS = {'append', 'extend', 'insert', 'add', 'add_new', 'pop', 'remove', 'cl
             'decompress', 'compress', 'convert_pixel_data', 'walk', 'remove_private_tags', 'ensure_file_meta',
             'fix_meta_info', 'update_raw_element', 'set_pixel_data'}
 MUTATOR_FUNCS = {'setattr', 'delattr', 'np.copyto', 'np.put', 'np.place', 'np.putmask'}
-KEEPING_FUNCS = {'list', 'tuple', 'set', 'dict', 'frozenset', 'cls', 'sorted'}     # results hold references to their arguments
+ITER_FUNCS = {'iter', 'next', 'enumerate', 'zip', 'reversed'}
+ITEM_METHODS = {'get', 'setdefault', '__getitem__', 'values', 'items', 'keys', 'iterall', 'elements', 'data_element', 'group_dataset',
+                'pop'}
+KEEPING_FUNCS = {'list', 'tuple', 'set', 'dict', 'frozenset', 'sorted'}     # results hold references to their arguments
 MAX_CONDS = 11
+CTOR_MAX_CONDS = 6        # constructors: beyond 2^5 paths the arms of branches are merged instead of enumerated
 # converters that cannot re-class their argument and return a new container holding its items (validated by tie C:
 # the correspondence compares 'same object / new object' of every converter with what its program predicts)
 REBUILDERS = {'ContentSequence.from_sequence'}
@@ -344,7 +348,9 @@ def _lean_e(e):
     if e[0] == 'var':
         return f'(.var {e[1]})'
     if e[0] == 'view':
-        return f'(.view {_lean_e(e[1])})'
+        return f'(.view {e[1]} {_lean_e(e[2])})'
+    if e[0] == 'join':
+        return f'(.join {_lean_e(e[1])} {_lean_e(e[2])})'
     return '.fresh'
 
 
@@ -357,7 +363,7 @@ def _lean_s(st):
     if k == 'deep':
         return f'.writeDeep {_lean_e(st[1])}'
     if k == 'link':
-        return f'.link {_lean_e(st[1])} {_lean_e(st[2])}'
+        return f'.link {_lean_e(st[1])} {st[2]} {_lean_e(st[3])}'
     if k == 'ite':
         return f'.ite {st[1]} [{", ".join(_lean_s(x) for x in st[2])}] [{", ".join(_lean_s(x) for x in st[3])}]'
     if k == 'ret':
@@ -365,16 +371,24 @@ def _lean_s(st):
     return '.raise'
 
 
-def _root_var(e):
-    while e[0] == 'view':
-        e = e[1]
-    return e[1] if e[0] == 'var' else None
+def _root_vars(e):
+    if e[0] == 'view':
+        return _root_vars(e[2])
+    if e[0] == 'join':
+        return _root_vars(e[1]) | _root_vars(e[2])
+    return {e[1]} if e[0] == 'var' else set()
 
 
 def _is_fresh(e):
-    while e[0] == 'view':
-        e = e[1]
+    if e[0] == 'view':
+        return _is_fresh(e[2])
+    if e[0] == 'join':
+        return _is_fresh(e[1]) and _is_fresh(e[2])
     return e[0] == 'fresh'
+
+
+SAME, ITEM, KEPT = 0, 1, 2    # labels: the same object seen differently / an item of a container / an argument a
+#                               constructor call keeps somewhere inside its result (reached by deep writes only)
 
 
 class _Alias:
@@ -388,6 +402,13 @@ class _Alias:
         self.has_copy = 'copy' in params
         self.conds = ['copy']            # condition 0 is reserved for the copy flag
         self.compenv = {}
+        self.labels = {}                 # attribute name -> view / link label (>= 2)
+        self.is_method = bool(fn.args.args) and fn.args.args[0].arg == 'self'
+
+    def label(self, name):
+        if name not in self.labels:
+            self.labels[name] = len(self.labels) + 3
+        return self.labels[name]
 
     def var(self, name):
         if name not in self.vars:
@@ -411,7 +432,7 @@ class _Alias:
             return 'private'
         return None
 
-    def pack(self, pre, parts):
+    def pack(self, pre, parts, label=ITEM):
         """a new container holding references to `parts`"""
         parts = [e for e in parts if not _is_fresh(e)]
         if not parts:
@@ -419,7 +440,7 @@ class _Alias:
         t = self.tmp()
         pre.append(('assign', t, FRESH))
         for e in parts:
-            pre.append(('link', ('var', t), e))
+            pre.append(('link', ('var', t), label, e))
         return ('var', t)
 
     # ---- expressions: returns (prefix statements, E)
@@ -435,11 +456,11 @@ class _Alias:
             return pre, FRESH
         if isinstance(node, ast.Attribute):
             p, b = self.expr(node.value)
-            return p, ('view', b)
+            return p, ('view', self.label(node.attr), b)
         if isinstance(node, ast.Subscript):
             p, b = self.expr(node.value)
             p2, _ = self.expr(node.slice)
-            return p + p2, ('view', b)
+            return p + p2, ('view', ITEM, b)
         if isinstance(node, ast.Starred):
             return self.expr(node.value)
         if isinstance(node, (ast.Tuple, ast.List, ast.Set)):
@@ -481,7 +502,7 @@ class _Alias:
                 if ast.unparse(node.func) in REBUILDERS:
                     # builds a new container around the items of its argument; the items are converted in place unless copied
                     t = self.tmp()
-                    inplace = [('deep', a), ('assign', t, FRESH), ('link', ('var', t), a)]
+                    inplace = [('deep', a), ('assign', t, FRESH), ('link', ('var', t), ITEM, ('view', ITEM, a))]
                     if not ck or (isinstance(ck[0], ast.Constant) and ck[0].value is True):
                         return pa, FRESH
                     if isinstance(ck[0], ast.Constant) and ck[0].value is False:
@@ -509,12 +530,16 @@ class _Alias:
             if fname in ('cast', 'typing.cast') and len(args) == 2:
                 return pre, vals[1]
             if fname in VIEW_FUNCS and args:
-                return pre, ('view', vals[0])
+                if fname == 'getattr' and len(args) >= 2 and isinstance(args[1], ast.Constant) and isinstance(args[1].value, str):
+                    return pre, ('view', self.label(args[1].value), vals[0])
+                return pre, ('view', ITEM if fname in ITER_FUNCS or fname == 'getattr' else SAME, vals[0])
             if fname in MUTATOR_FUNCS and args:
                 pre.append(('write', vals[0]))
+                lab = self.label(args[1].value) if fname == 'setattr' and len(args) >= 2 and isinstance(args[1], ast.Constant) \
+                    and isinstance(args[1].value, str) else ITEM
                 for e in vals[1:]:
                     if not _is_fresh(e):
-                        pre.append(('link', vals[0], e))
+                        pre.append(('link', vals[0], lab, e))
                 return pre, FRESH
             if isinstance(node.func, ast.Attribute):
                 pr, recv = self.expr(node.func.value)
@@ -523,13 +548,17 @@ class _Alias:
                     pre.append(('write', recv))
                     for e in vals:
                         if not _is_fresh(e):
-                            pre.append(('link', recv, e))
+                            pre.append(('link', recv, ITEM, e))
+                            if node.func.attr in ('extend', 'update'):
+                                pre.append(('link', recv, ITEM, ('view', ITEM, e)))
                     return pre, FRESH
                 if node.func.attr in VIEW_METHODS:
-                    return pre, ('view', recv)
+                    return pre, ('view', ITEM if node.func.attr in ITEM_METHODS else SAME, recv)
             last = fname.split('.')[-1]
-            if last[:1].isupper() or last in KEEPING_FUNCS:
-                return pre, self.pack(pre, vals)          # a constructor keeps references to what it is given
+            if last in KEEPING_FUNCS:
+                return pre, self.pack(pre, vals + [('view', ITEM, e) for e in vals if not _is_fresh(e)])   # list(x), sorted(x) …
+            if last[:1].isupper() or last == 'cls':
+                return pre, self.pack(pre, vals, KEPT)    # a constructor keeps references to what it is given
             return pre, FRESH
         if isinstance(node, (ast.ListComp, ast.SetComp, ast.GeneratorExp, ast.DictComp)):
             saved = dict(self.compenv)
@@ -539,7 +568,7 @@ class _Alias:
                 body += pi
                 for n in ast.walk(g.target):
                     if isinstance(n, ast.Name):
-                        self.compenv[n.id] = ('view', it)
+                        self.compenv[n.id] = ('view', ITEM, it)
                 for cnd in g.ifs:
                     pc, _ = self.expr(cnd)
                     body += pc
@@ -550,7 +579,7 @@ class _Alias:
                 pe, e = self.expr(el)
                 body += pe
                 if not _is_fresh(e):
-                    body.append(('link', ('var', t), e))
+                    body.append(('link', ('var', t), ITEM, e))
             self.compenv = saved
             if body:      # executed zero or more times
                 c = self.cond('comprehension: ' + ast.unparse(node)[:60])
@@ -580,13 +609,13 @@ class _Alias:
             out.append(('assign', self.var(target.id), e))
         elif isinstance(target, (ast.Tuple, ast.List)):
             for el in target.elts:
-                self.assign_to(el, e if _is_fresh(e) else ('view', e), out)
+                self.assign_to(el, e if _is_fresh(e) else ('view', ITEM, e), out)
         elif isinstance(target, (ast.Attribute, ast.Subscript)):
             p, b = self.expr(target.value)
             out += p
             out.append(('write', b))
             if not _is_fresh(e):
-                out.append(('link', b, e))
+                out.append(('link', b, self.label(target.attr) if isinstance(target, ast.Attribute) else ITEM, e))
         elif isinstance(target, ast.Starred):
             self.assign_to(target.value, e, out)
         else:
@@ -617,7 +646,7 @@ class _Alias:
                     _, e = self.expr(st.target)
                     out.append(('write', e))          # in place for arrays / lists
                     if not _is_fresh(v) and isinstance(st.op, ast.Add):
-                        out.append(('link', e, v))   # list += items
+                        out.append(('link', e, ITEM, ('view', ITEM, v)))   # list += items
                 else:
                     p2, b = self.expr(st.target.value)
                     out += p2
@@ -644,7 +673,7 @@ class _Alias:
                 if not isinstance(st, ast.While):
                     p, it = self.expr(st.iter)
                     out += p
-                    self.assign_to(st.target, ('view', it), body)
+                    self.assign_to(st.target, ('view', ITEM, it), body)
                 else:
                     p, _ = self.expr(st.test)
                     out += p
@@ -690,18 +719,11 @@ class _Alias:
             k = st[0]
             if k == 'assign':
                 if st[1] in used:
-                    v = _root_var(st[2])
-                    if v is not None:
-                        used.add(v)
+                    used |= _root_vars(st[2]) - {st[1]} if st[2][0] == 'join' else _root_vars(st[2])
             elif k in ('write', 'deep', 'ret'):
-                v = _root_var(st[1])
-                if v is not None:
-                    used.add(v)
+                used |= _root_vars(st[1])
             elif k == 'link':
-                for e in st[1:]:
-                    v = _root_var(e)
-                    if v is not None:
-                        used.add(v)
+                used |= _root_vars(st[1]) | _root_vars(st[3])
             elif k == 'ite':
                 _Alias._used(st[2], used)
                 _Alias._used(st[3], used)
@@ -713,22 +735,74 @@ class _Alias:
             k = st[0]
             if k == 'assign' and st[1] not in used:
                 continue
+            if k == 'assign' and _is_fresh(st[2]) and st[2] != FRESH:
+                st = ('assign', st[1], FRESH)          # an attribute of a constant / new value: nothing the caller can see
+            if k == 'ret' and _is_fresh(st[1]) and st[1] != FRESH:
+                st = ('ret', FRESH)
             if k in ('write', 'deep') and _is_fresh(st[1]):
                 continue                       # writing a value nobody else can see
-            if k == 'link' and (_is_fresh(st[1]) or _is_fresh(st[2])):
+            if k == 'link' and (_is_fresh(st[1]) or _is_fresh(st[3])):
                 continue
             if k == 'ite':
                 t, e = _Alias._prune(st[2], used), _Alias._prune(st[3], used)
                 if t == e:
                     out += t
+                elif all(x[0] in ('write', 'deep', 'link') for x in t + e):
+                    # writes and links only accumulate: doing both arms over-approximates either (and needs no condition)
+                    out += t + e
                 else:
                     out.append(('ite', st[1], t, e))
                 continue
             out.append(st)
         return out
 
-    def program(self):
-        prog = self.block(strip_doc(self.fn.body), top=True)
+    def _flatten(self, prog):
+        """merge the arms of branches without early exit: each arm runs on private copies of the variables it assigns
+        (strong updates inside the arm), and at its end every such variable becomes `x | x_arm` (weak update at the join)"""
+        def ren_e(e, m):
+            if e[0] == 'var':
+                return ('var', m.get(e[1], e[1]))
+            if e[0] == 'view':
+                return ('view', e[1], ren_e(e[2], m))
+            if e[0] == 'join':
+                return ('join', ren_e(e[1], m), ren_e(e[2], m))
+            return e
+
+        def arm(p):
+            m, out = {}, []
+            for st in p:
+                k = st[0]
+                if k == 'assign':
+                    e = ren_e(st[2], m)
+                    t = self.tmp()
+                    out.append(('assign', t, e))
+                    m[st[1]] = t
+                elif k in ('write', 'deep'):
+                    out.append((k, ren_e(st[1], m)))
+                elif k == 'link':
+                    out.append(('link', ren_e(st[1], m), st[2], ren_e(st[3], m)))
+            for x, t in m.items():
+                out.append(('assign', x, ('join', ('var', x), ('var', t))))
+            return out
+        out = []
+        for st in prog:
+            if st[0] == 'ite':
+                t, e = self._flatten(st[2]), self._flatten(st[3])
+                if all(x[0] in ('assign', 'write', 'deep', 'link') for x in t + e):
+                    out += arm(t) + arm(e)
+                else:
+                    out.append(('ite', st[1], t, e))
+            else:
+                out.append(st)
+        return out
+
+    def program(self, merge_arms=False):
+        prog = []
+        if self.is_method:
+            prog.append(('assign', self.var('self'), FRESH))      # the object under construction is new
+        prog += self.block(strip_doc(self.fn.body), top=True)
+        if merge_arms:
+            prog = self._flatten(prog)
         while True:
             used = set()
             n = -1
@@ -756,8 +830,9 @@ class _Alias:
             return [('ite', remap[st[1]], ren(st[2]), ren(st[3])) if st[0] == 'ite' else st for st in p]
         prog = ren(prog)
         self.cond_texts = ['copy'] + [self.conds[c] for c in order]
-        if len(self.cond_texts) > MAX_CONDS:
-            raise Unsupported(f'{self.fn.name}: {len(self.cond_texts)} relevant conditions (limit {MAX_CONDS})')
+        limit = getattr(self, 'max_conds', MAX_CONDS)
+        if len(self.cond_texts) > limit:
+            raise Unsupported(f'{self.fn.name}: {len(self.cond_texts)} relevant conditions (limit {limit})')
         return prog
 
 
@@ -875,3 +950,59 @@ def build_sites(_tree):
 
 
 TARGETS['T20sites'] = {'file': 'base.py', 'build': build_sites}
+
+
+# ----------------------------------------------------------------------------------------------- constructors (T20ctor_*)
+def _constructors(tree):
+    out = []
+    for node in tree.body:
+        if isinstance(node, ast.ClassDef):
+            for f in node.body:
+                if isinstance(f, ast.FunctionDef) and f.name == '__init__':
+                    out.append((f'{node.name}.__init__', f))
+    return out
+
+
+def make_ctor_target(tag):
+    def build(tree):
+        entries, skipped, spans = [], [], []
+        for qual, fn in _constructors(tree):
+            try:
+                a = _Alias(fn)
+                a.max_conds = CTOR_MAX_CONDS
+                try:
+                    prog = a.program()
+                except Unsupported as e:
+                    if 'relevant conditions' not in str(e):
+                        raise
+                    a = _Alias(fn)                  # too many paths to enumerate: merge the arms of its branches
+                    a.max_conds = CTOR_MAX_CONDS
+                    prog = a.program(merge_arms=True)
+                    qual += ' (arms merged)'
+            except Unsupported as e:
+                skipped.append((qual, str(e)))
+                continue
+            spans.append(fn)
+            conds = '; '.join(f'{i}: {c}' for i, c in enumerate(a.cond_texts) if i)
+            entries.append(f'  -- {qual}({", ".join(a.params)})   conditions: {conds}\n'
+                           f'  ⟨"{qual}", {len(a.params)}, {len(a.cond_texts)}, false,\n'
+                           f'   [{", ".join(_lean_s(x) for x in prog)}]⟩')
+        if not entries and not skipped:
+            raise Unsupported(f'no constructor found for {tag}')
+        text = (f'/-- alias-flow programs extracted from the constructors (`__init__`) of `{tag}`; `self` is a new object -/\n'
+                f'def ctor_{tag} : List Aliasing.Entry := [\n' + ',\n'.join(entries) + '\n]\n\n'
+                f'/-- constructors of `{tag}` beyond the extractor\'s limit of {MAX_CONDS - 1} relevant conditions (carried by the\n'
+                f'correspondence only) -/\n'
+                f'def ctorSkipped_{tag} : List String := [' + ', '.join(f'"{q}"' for q, _ in skipped) + ']')
+        return text, span_sha(spans) + hashlib.sha256(repr(skipped).encode()).hexdigest()[:8]
+    return build
+
+
+CTOR_FILES = {'base': 'base.py', 'content': 'content.py', 'seg_content': 'seg/content.py', 'seg_sop': 'seg/sop.py',
+              'pm_content': 'pm/content.py', 'pm_sop': 'pm/sop.py', 'sc_sop': 'sc/sop.py', 'sr_coding': 'sr/coding.py',
+              'sr_content': 'sr/content.py', 'sr_sop': 'sr/sop.py', 'sr_value_types': 'sr/value_types.py',
+              'sr_templates': 'sr/templates.py', 'ko_content': 'ko/content.py', 'ko_sop': 'ko/sop.py',
+              'ann_content': 'ann/content.py', 'ann_sop': 'ann/sop.py', 'pr_content': 'pr/content.py', 'pr_sop': 'pr/sop.py',
+              'legacy_sop': 'legacy/sop.py'}
+for _tag, _file in CTOR_FILES.items():
+    TARGETS[f'T20ctor_{_tag}'] = {'file': _file, 'build': make_ctor_target(_tag), 'imports': ['HdVerif.Model.Aliasing']}
